@@ -66,12 +66,15 @@ Section WithTable.
   (* ================= C10: one channel, every write boundary ================= *)
   (* view of RestoreChannel at a boundary + code of RestorePeer(probe): 0 = no channel, 1 = exactly
      the channel RestoreChannel returned, 2 = anything else *)
+  (* an operation of the history, or a restart: new PersistRestorer on the same database, the machine
+     rebuilt from what RestoreChannel returns (observed as the single view of that step) *)
+  Inductive pop := PO (o : rop) | PRestart.
   Inductive bview := BOk (v : oview) (pv : N) | BNotFound (pv : N) | BErr | BPanic.
   Record c10case := mkC10 {
     x_p : mparams; x_me : N; x_peers : list bytes; x_parent : option bytes; x_probe : bytes;
     x_create : list bview;                   (* boundaries of ChannelCreated *)
     x_keys : list bytes;                     (* raw keys after creation *)
-    x_ops : list rop;
+    x_ops : list pop;
     x_obs : list (rout * list bview);        (* outcome and one view per atomic write *)
     x_keys_end : option (list bytes) }.   (* None = as after creation *)
 
@@ -107,14 +110,18 @@ Section WithTable.
         let s' := apply_atomic s a in bview_ok x s' b && boundaries_ok x s' ws' bs'
     | _, _ => false
     end.
-  Fixpoint c10_run (x : c10case) (W : world) (s : store) (ops : list rop)
+  Fixpoint c10_run (x : c10case) (W : world) (s : store) (ops : list pop)
            (obs : list (rout * list bview)) : option store :=
     match ops, obs with
     | [], [] => Some s
-    | o :: ops', (r, bs) :: obs' =>
+    | PO o :: ops', (r, bs) :: obs' =>
         let '(W', out, ws) := wstep W s (WOp (mp_id (x_p x)) (conv_op sts o)) in
         if out_agrees' out r && boundaries_ok x s ws bs
         then c10_run x W' (apply_atomics s ws) ops' obs' else None
+    | PRestart :: ops', (r, [b]) :: obs' =>
+        let '(W', out, ws) := wstep W s WRestart in
+        if out_agrees' out r && bview_ok x s b && match ws with [] => true | _ => false end
+        then c10_run x W' s ops' obs' else None
     | _, _ => None
     end.
   Definition c10_good (x : c10case) : bool :=
@@ -132,7 +139,7 @@ Section WithTable.
 
   (* ================= C11: several channels, every step ================= *)
   Record chspec := mkCS { cs_p : mparams; cs_me : N; cs_peers : list nat; cs_parent : option bytes }.
-  Inductive mop := MCreate (c : nat) | MOp (c : nat) (o : rop).
+  Inductive mop := MCreate (c : nat) | MOp (c : nat) (o : rop) | MRestart.
   Inductive cres := CR (v : nat) | CNotFound | CErr | CPanic.
   Record mobs := mkMO {
     mo_out : rout;
@@ -168,6 +175,7 @@ Section WithTable.
     match o with
     | MCreate c => let cs := spec_of y c in WCreate (cs_p cs) (cs_me cs) (spec_peers y cs) (cs_parent cs)
     | MOp c o => WOp (mp_id (cs_p (spec_of y c))) (conv_op sts o)
+    | MRestart => WRestart
     end.
   Definition step_agrees (y : c11case) (s : store) (last : list bytes) (o : mobs) : bool * list bytes :=
     let keys := match mo_keys o with Some l => l | None => last end in
